@@ -89,7 +89,7 @@ MUTANTS = [
     ("c02-track-nbytes", "C02", "tdfData3D.py",
      "            base += 4 + 4 + (segment.stop - segment.start) * TrackType.btype.itemsize",
      "            base += (segment.stop - segment.start) * TrackType.btype.itemsize\n        base += 8 * min(1, len(self._segments))"),
-    ("c02-links-nbytes", "C02", "tdfData3D.py", "LinkType.btype.itemsize * len(self.links)", "0 * len(self.links)"),
+    ("c02-links-nbytes", "C02", "tdfData3D.py", "LinkType.btype.itemsize * len(self._link_records())", "0 * len(self._link_records())"),
     ("c02-optical-vp", "C02", "tdfOpticalSystem.py", "        camera_viewport = CameraViewPort.bread(stream)\n",
      "        camera_viewport = CameraViewPort(VEC2I.bread(stream), VEC2I.bread(stream) if False else np.zeros(2, dtype='<i4'))\n"),
     ("c03-add-no-repoint", "C03", "basictdf.py", "            entry.offset = new_entry.offset + new_entry.size\n", "            pass\n"),
@@ -110,9 +110,7 @@ MUTANTS = [
     ("c06-vp-swap", "C06", "tdfTypes.py", None, None),
     ("c06-emg-bias-both", "C06", "tdfEMG.py", "49", "48"),
     ("c06-entry-pad-moved", "C06", "basictdf.py", None, None),
-    ("c07-validate-late", "C07", "basictdf.py",
-     "        block_buffer = BytesIO()\n        newBlock._write(block_buffer)\n\n        # replace the entry\n        self.entries[unusedBlockPos] = new_entry\n",
-     "        # replace the entry\n        self.entries[unusedBlockPos] = new_entry\n        block_buffer = BytesIO()\n        newBlock._write(block_buffer)\n"),
+    ("c07-validate-late", "C07", "basictdf.py", None, None),  # the block is serialised after the in-memory table was updated
     ("c07-replace-no-validate", "C07", "basictdf.py", "        newBlock._write(BytesIO())\n        remaining", "        remaining"),
     ("c08-exit-keeps-mode", "C08", "basictdf.py", '        self._inside_context = False\n        self._mode = "rb"\n', "        self._inside_context = False\n"),
     ("c08-getter-rplus", "C08", "basictdf.py", "        return any(entry.type == BlockType.data3D for entry in self.entries)",
@@ -134,7 +132,7 @@ MUTANTS = [
      "            la.index(b\"\\x00\")\n            return la.rstrip(b\"\\x00\").split(b\"\\x00\")[0].decode(encoding) if la.rstrip(b\"\\x00\").count(b\"\\x00\") == 0 else la.rstrip(b\"\\x00\").replace(b\"\\x00\", b\" \").decode(encoding)"),
     ("c12-entry-pad-format", "C12", "basictdf.py", "        i32.skip(file)\n        comment = BTSString.bread(file, 256)",
      "        pad = i32.bread(file)\n        comment = BTSString.bread(file, 256)\n        format = format if pad == 0 else format + 0 * pad + (1 if pad == 0x7fffffff else 0)\n        if pad == -1:\n            comment = ''"),
-    ("c15-auto-channel", "C15", "tdfEMG.py", "next_channel = max(self._emgMap) + 1", "next_channel = len(self._emgMap)"),
+    ("c15-auto-channel", "C15", "tdfEMG.py", "next_channel = i16.free_channel(self._emgMap)", "next_channel = len(self._emgMap)"),
     ("c15-remove-map", "C15", "tdfForcePlatformsCalibration.py", "        del self._platforms[index]\n        del self._platformMap[index]",
      "        del self._platforms[index]\n        del self._platformMap[min(index + 1, len(self._platformMap) - 1)]"),
     ("c15-decode-reversed", "C15", "tdfForcePlatformsData.py", "for channel, platform in zip(plat_map, platforms):", "for channel, platform in zip(plat_map[::-1], platforms):"),
@@ -147,7 +145,7 @@ MUTANTS = [
     ("c20-emg-default", "C20", "tdfEMG.py", "        self._signals = []\n        self._emgMap = []", "        self._signals = EMG._pool\n        self._emgMap = []"),
     # environment faults added in round 1, wave 6: each needs one of them to show
     ("c09-offset-from-path-size", "C09", "basictdf.py", "offset=self.entries[unusedBlockPos].offset,", "offset=self.nBytes,"),  # chdir
-    ("c07-text-errors-replace", "C07", "tdfTypes.py", "            return la[:pos].decode(encoding)\n", '            return la[:pos].decode(encoding, errors="replace")\n'),  # undefined cp1252 byte in a table comment
+    ("c04-text-replace-both-ways", "C04", "tdfTypes.py", None, None),  # undefined cp1252 byte in a table comment: read as U+FFFD, written back as '?'
     ("c08-warn-in-enter", "C08", "basictdf.py", "        self.entries = [TdfEntry._build(self.handler) for _ in range(self.nEntries)]\n",
      "        self.entries = [TdfEntry._build(self.handler) for _ in range(self.nEntries)]\n        if self.handler.writable() and self.nEntries < 14:\n            import warnings\n            warnings.warn('short table')\n"),  # python -W error
     ("c06-date-unsigned", "C06", "tdfTypes.py", 'return datetime.fromtimestamp(struct.unpack("<i", data)[0])', 'return datetime.fromtimestamp(struct.unpack("<I", data)[0])'),  # dates before 1970
@@ -159,7 +157,21 @@ def _apply(src, mid, fname, old, new):
     p = os.path.join(src, "basictdf", fname)
     with open(p) as f:
         s = f.read()
-    if mid == "c06-entry-pad-moved":
+    if mid == "c07-validate-late":
+        a = "        block_buffer = BytesIO()\n        newBlock._write(block_buffer)\n"
+        c = "        # replace the entry\n        self.entries[unusedBlockPos] = new_entry\n"
+        if s.count(a) != 1 or s.count(c) != 1:
+            return False
+        s = s.replace(a, "        block_buffer = BytesIO()\n")
+        s = s.replace(c, c + "        newBlock._write(block_buffer)\n")
+    elif mid == "c04-text-replace-both-ways":
+        a = "            return la[:pos].decode(encoding)\n"
+        c = '        dat = data.encode("windows-1252") + b"\\x00"\n'
+        if a not in s or c not in s:
+            return False
+        s = s.replace(a, '            return la[:pos].decode(encoding, errors="replace")\n')
+        s = s.replace(c, '        dat = data.encode("windows-1252", errors="replace") + b"\\x00"\n')
+    elif mid == "c06-entry-pad-moved":
         a = "        BTSDate.bwrite(file, self.creation_date)\n        BTSDate.bwrite(file, self.last_modification_date)\n        BTSDate.bwrite(file, self.last_access_date)\n        i32.bpad(file)\n"
         b = "        i32.bpad(file)\n        BTSDate.bwrite(file, self.creation_date)\n        BTSDate.bwrite(file, self.last_modification_date)\n        BTSDate.bwrite(file, self.last_access_date)\n"
         c = "        creation_date = BTSDate.bread(file)\n        last_modification_date = BTSDate.bread(file)\n        last_access_date = BTSDate.bread(file)\n        i32.skip(file)\n"
